@@ -670,6 +670,10 @@ class TidemanAlternative:
                 tier_votes = RANKED_SUBSETTER.convert(tier_votes, eligible_set)
 
     def run_tier(self, votes: Dict[RankedVoteType, int]) -> Candidate:
+        candidates = votelib.util.all_ranked_candidates(votes)
+        if len(candidates) == 1:
+            # a lone candidate has no pairwise contest and takes the seat
+            return candidates[0]
         round_votes = votes
         while round_votes:
             s_set_list = self.get_winner_set(round_votes)
